@@ -247,10 +247,12 @@ impl fmt::Display for SimpleCommand {
             },
             (None, None) => None,
         };
-        let ends_with_backslash = matches!(
-            last_word.and_then(|word| word.units.last()),
-            Some(Unquoted(Literal('\\')))
-        );
+        let ends_with_backslash = match last_word.and_then(|word| word.units.last()) {
+            Some(Unquoted(Literal('\\'))) => true,
+            // A tilde expansion takes any following unquoted literals in its name.
+            Some(Tilde { name, .. }) => name.ends_with('\\'),
+            _ => false,
+        };
 
         if ends_with_backslash {
             write!(f, "{}", i3.chain(i1).chain(i2).format(" "))
